@@ -3,12 +3,14 @@
 
     html string <cdata> <indent> <path> <tree>    xot.html5().serialize_string(parameters, node)
     html write  <cdata> <indent> <path> <tree>    xot.html5().serialize_write(parameters, node, &mut buf)
+    html string_norm <cdata> <indent> <path> <tree>
+        xot.html5().serialize_string_with_normalizer(parameters, node, FullwidthNormalizer) (`fullwidthNorm`)
 
   <cdata>  : `-` or comma-separated name ids (cdata_section_elements)
   <indent> : `-` (no indentation) | `i` (empty suppress list) | `i<ids>`
   Answers: `ok <str>` | `err:<Variant>` | `panic`; for `write`: `<ok|err:…|panic> <bytes written>`.
 -/
-import XotModel.Model.Html5
+import XotModel.Model.Normalizer
 import XotModel.Driver.Output
 
 namespace XotModel.Driver
@@ -27,6 +29,11 @@ def handleHtml (st : DState) : List String → Option String
       let pr : HtmlParams := ⟨← parseIndent ind, ← parseNatList cd⟩
       let (t, p) ← parseTreeAt path toks
       some (showHtmlOutcome (htmlCtx st.env pr).env (fun s => "ok " ++ encStr s) (serializeHtmlString st.env pr t p))
+  | "string_norm" :: cd :: ind :: path :: toks => do
+      let pr : HtmlParams := ⟨← parseIndent ind, ← parseNatList cd⟩
+      let (t, p) ← parseTreeAt path toks
+      some (showHtmlOutcome (htmlCtx st.env pr).env (fun s => "ok " ++ encStr s)
+        (serializeHtmlStringN fullwidthNorm st.env pr t p))
   | "write" :: cd :: ind :: path :: toks => do
       let pr : HtmlParams := ⟨← parseIndent ind, ← parseNatList cd⟩
       let (t, p) ← parseTreeAt path toks
